@@ -901,7 +901,7 @@ func (h *sentPacketHandler) OnLossDetectionTimeout(now monotime.Time) error {
 	// However, there's no way to reset the timer in the connection.
 	// When OnLossDetectionTimeout is called, we therefore need to make sure that there are
 	// actually packets outstanding.
-	if h.bytesInFlight == 0 && !h.peerCompletedAddressValidation {
+	if !h.hasOutstandingCryptoPackets() && !h.peerCompletedAddressValidation {
 		h.ptoCount++
 		h.numProbesToSend++
 		if h.initialPackets != nil {
